@@ -129,6 +129,9 @@ func (l *Lin) DivExact(k int64) (*Lin, bool) {
 	return r, true
 }
 
+// ConstTerm returns the constant term of l.
+func (l *Lin) ConstTerm() int64 { return l.c }
+
 func (l *Lin) IsConst() bool         { return !l.bad && len(l.vs) == 0 }
 func (l *Lin) Bad() bool             { return l.bad }
 
